@@ -40,4 +40,4 @@ For each change n in 1..{n} write into {out}/<n>/:
   - patch.diff : `git diff` of the source change only, relative to the worktree root (must apply with `git apply` on a clean checkout of HEAD);
   - a demonstration: a single Go test file demo_test.go plus a file DEMO_DIR.txt holding the package directory (relative to the repo root) where demo_test.go must be placed to run, and RUN.txt with the exact go test command relative to the worktree root (e.g. `cd sdk && go test -count=1 -run TestDemo ./trace/`). The demo must FAIL with the patch applied and PASS on the unpatched tree, reliably (if it is schedule dependent, loop inside the test until it reproduces, bounded to < 60 s, and make sure the unpatched run passes). The demo may use internal test access if placed in the package, but prefer the public API.
   - meta.json : {{"property": "{pid}", "summary": "...", "needs_to_manifest": "...", "files_touched": [...], "commands_run": ["..."], "existing_tests": "pass", "demo_with_patch": "fail", "demo_without_patch": "pass"}}.
-Verify all of this yourself, in both directions, before writing meta.json. Apply one change at a time (git checkout -- . between them). When finished leave the worktree clean (`git -C {wt} status --short` prints nothing): remove demo files and revert patches. Do not commit anything. Final answer: a 5-line summary per change (what, where, what it needs to manifest).""")
+Verify all of this yourself, in both directions, before writing meta.json. Apply one change at a time (git checkout -- . between them; NEVER use `git stash`: the stash is shared with other worktrees of the same repository — switch between patched and unpatched trees with `git apply` / `git apply -R` of your saved patch.diff). When finished leave the worktree clean (`git -C {wt} status --short` prints nothing): remove demo files and revert patches. Do not commit anything. Final answer: a 5-line summary per change (what, where, what it needs to manifest).""")
